@@ -12,7 +12,7 @@ CONSTANTS Comp = "multi"
   NBuf = 2
   Gaps <- G_6_11
   Strict = TRUE
-  D = 3
+  D = 2
 INIT Init
 NEXT Next
 VIEW viewE
